@@ -281,3 +281,84 @@ NUMPY_OF = {
     "unsigned_int": onp.uint32, "int": onp.int32, "unsigned_long": onp.uint64, "long": onp.int64,
     "float": onp.float32, "double": onp.float64,
 }
+
+
+# ------------------------------------------------------------------------------------------------------- self-test
+# A file written by hand after the example in the VTK file-format document (not produced by the code under test) and
+# one-edit corruptions of it: the reader must accept the former and name the defect of each of the latter.
+
+_GOOD = """# vtk DataFile Version 2.0
+Unstructured Grid Example
+ASCII
+DATASET UNSTRUCTURED_GRID
+POINTS 5 float
+0 0 0  1 0 0  2 0 0
+0 1 0  1 1 0
+CELLS 3 11
+3 0 1 3
+3 1 4 3
+2 1 2
+CELL_TYPES 3
+5
+5
+3
+POINT_DATA 5
+SCALARS scalars float 1
+LOOKUP_TABLE default
+0.0 1.0 2.0 3.0 4.0
+VECTORS vectors float
+1 0 0  1 1 0  0 2 0  1 0 0  1 1 0
+TENSORS t double
+1 0 0 0 1 0 0 0 1   1 0 0 0 1 0 0 0 1   1 0 0 0 1 0 0 0 1   1 0 0 0 1 0 0 0 1   1 0 0 0 1 0 0 0 1e-3
+CELL_DATA 3
+SCALARS id int
+LOOKUP_TABLE default
+7 8 9
+"""
+
+_CORRUPTIONS = [
+    ("POINTS 5 float", "POINTS 6 float", "record_count"),
+    ("POINTS 5 float", "POINTS 4 float", "record_count"),
+    ("CELLS 3 11", "CELLS 3 12", "cells_size"),
+    ("3 1 4 3", "3 1 5 3", "connectivity_range"),
+    ("CELL_TYPES 3", "CELL_TYPES 2", "cell_types_count"),
+    ("5\n5\n3\n", "5\n22\n3\n", "cell_type"),
+    ("POINT_DATA 5", "POINT_DATA 4", "point_data_count"),
+    ("CELL_DATA 3", "CELL_DATA 4", "cell_data_count"),
+    ("7 8 9", "7 8 9 10", "record_count"),
+    ("7 8 9", "7 8", "record_count"),
+    ("0.0 1.0 2.0 3.0 4.0", "0.0 1.0 2.0 3.0 nan", "value_token_type"),
+    ("LOOKUP_TABLE default\n7", "7", "grammar"),
+    ("ASCII", "BINARY", "header"),
+    ("# vtk DataFile Version 2.0", "# vtk datafile", "header"),
+    ("VECTORS vectors float", "VECTORS vectors real", "grammar"),
+    ("SCALARS id int", "SCALARS scalars int", None),            # same name in another section is legal
+    ("CELL_DATA 3\nSCALARS id int", "POINT_DATA 5\nSCALARS id int", "grammar"),
+]
+
+
+def selftest():
+    """Returns a list of failure descriptions (empty = the reader behaves as specified on the hand-written files)."""
+    fails = []
+    try:
+        p = parse_text(_GOOD)
+        if not (p["npoints"] == 5 and p["cells"] == [[0, 1, 3], [1, 4, 3], [1, 2]] and p["cell_types"] == [5, 5, 3]
+                and p["point_data"]["vectors"]["values"][3:6] == [1.0, 1.0, 0.0] and p["point_data"]["t"]["values"][-1] == 1e-3
+                and p["cell_data"]["id"]["values"] == [7, 8, 9] and not p["soft_errors"] and p["points"][2] == [2.0, 0.0, 0.0]):
+            fails.append("hand-written file parsed to the wrong content")
+    except VTKFormatError as e:
+        fails.append("hand-written valid file rejected: %s" % e)
+    for old, new, clause in _CORRUPTIONS:
+        assert old in _GOOD
+        try:
+            p = parse_text(_GOOD.replace(old, new, 1))
+            got = None
+        except VTKFormatError as e:
+            got = e.clause
+        if got != clause:
+            fails.append("corruption %r -> %r: expected %s, got %s" % (old, new, clause, got))
+    # a float literal in an integer array is reported without stopping the read
+    p = parse_text(_GOOD.replace("7 8 9", "7 8.0 9"))
+    if not (len(p["soft_errors"]) == 1 and p["soft_errors"][0]["clause"] == "value_token_type" and p["cell_data"]["id"]["values"] == [7, 8.0, 9]):
+        fails.append("soft error for a float literal in an int array not reported")
+    return fails
